@@ -74,17 +74,21 @@ def _ghost_state():
 # ----------------------------------------------------------------------------- TI1
 def reader_summary(ctx, rep, R, RULE):
     """how the index reader accounts for the symbols it takes"""
-    calls = [n for n in own_nodes(R.node) if isinstance(n, ast.Call) and isinstance(n.func, ast.Name) and n.func.id == "next"]
-    itp = None
-    for c in calls:
-        if c.args and isinstance(c.args[0], ast.Name) and c.args[0].id in R.params:
-            itp = c.args[0].id
-    cnt = None
+    itp = cnt = None
     for n in own_nodes(R.node):
-        if isinstance(n, ast.Call) and isinstance(n.func, ast.Name) and n.func.id == "range":
+        if not isinstance(n, ast.Call):
+            continue
+        fn = unparse(n.func).split(".")[-1]
+        if fn == "next" and n.args and isinstance(n.args[0], ast.Name) and n.args[0].id in R.params:
+            itp = n.args[0].id
+        elif fn == "range":
             for a in n.args:
                 if isinstance(a, ast.Name) and a.id in R.params:
                     cnt = a.id
+        elif fn == "islice" and len(n.args) >= 2 and isinstance(n.args[0], ast.Name) and n.args[0].id in R.params:
+            itp = n.args[0].id
+            if isinstance(n.args[1], ast.Name) and n.args[1].id in R.params:
+                cnt = n.args[1].id
     if itp is None or cnt is None:
         raise AnalysisError("index reader %s: iterator / count parameters not identified" % R.qual)
 
@@ -93,20 +97,44 @@ def reader_summary(ctx, rep, R, RULE):
             if self.is_next(callee) and args and vkey(args[0]) == ("unk", ("param", R.qual, itp)):
                 return self.model_next(eng, fr, node, args, st)
             return None
-    eng = Engine(ctx, H())
-    st = _ghost_state()
-    fr = eng.run_function(R, {cnt: Num(Lin.var("N"))}, state=st, assumptions=lambda env: [("lin",) + ge(Lin.var("N"), 0)])
-    pair_idx = set()
-    exact = True
-    for s, v in fr.returns:
-        g = s.env[GHOST].lin
-        if isinstance(v, Tup) and len(v.items) == 2:
-            hit = [i for i, x in enumerate(v.items) if isinstance(x, Num) and s.entails(eq(x.lin - g, 0))]
-            pair_idx.add(hit[0] if hit else None)
-        else:
-            pair_idx.add("single")
-        if not s.entails(eq(g - Lin.var("N"), 0)):
-            exact = False
+    def attempt(nval, assumptions=None):
+        eng = Engine(ctx, H())
+        fr = eng.run_function(R, {cnt: Num(nval)}, state=_ghost_state(), assumptions=assumptions)
+        pair_idx = set()
+        exact = True
+        common = None          # components that equal the ghost on EVERY return path
+        for s, v in fr.returns:
+            g = s.env[GHOST].lin
+            if isinstance(v, Tup) and len(v.items) == 2:
+                hit = {i for i, x in enumerate(v.items) if isinstance(x, Num) and s.entails(eq(x.lin - g, 0))}
+                common = hit if common is None else (common & hit)
+            else:
+                pair_idx.add("single")
+            if not s.entails(eq(g - nval, 0)):
+                exact = False
+        if common is not None:
+            pair_idx.add(min(common) if len(common) >= 1 and "single" not in pair_idx else None)
+            if len(common) == 2:
+                pair_idx = {"either"}
+        return pair_idx, exact, bool(fr.returns)
+    # first for a symbolic request size; if that is not conclusive, for every size the ring / branch tables can ask for
+    pair_idx, exact, any_ret = attempt(Lin.var("N"), lambda env: [("lin",) + ge(Lin.var("N"), 0)])
+    decided_for = "any requested number"
+    if pair_idx == {"either"}:
+        pair_idx = {None}
+    if not (exact or pair_idx in ({0}, {1})):
+        from rules import decmodel
+        tables = decmodel.fold_tables(ctx)
+        arities = sorted({v[1] for v in tables["branch"].values()} | {v[1] for v in tables["ring"].values()})
+        merged, all_exact = None, True
+        for n in arities:
+            pi, ex, anyr = attempt(Lin.const(n))
+            cand = {0, 1} if pi == {"either"} else ({i for i in pi if i in (0, 1)} if pi <= {0, 1} else set())
+            merged = cand if merged is None else (merged & cand)
+            all_exact = all_exact and ex
+        pair_idx = {min(merged)} if merged and len(merged) == 1 else ({"single"} if merged is None else {None})
+        exact = all_exact
+        decided_for = "each request size the ring / branch tables allow (%s)" % arities
     summ = {"it": itp, "cnt": cnt, "exact": exact, "count_index": None, "pair": False}
     if pair_idx == {0} or pair_idx == {1}:
         summ["pair"] = True
@@ -115,8 +143,8 @@ def reader_summary(ctx, rep, R, RULE):
         summ["pair"] = True            # returns a pair, but no component is provably the number taken
     ok = exact or summ["count_index"] is not None
     rep.ob(RULE, ok, R.node, R, construct="symbols taken by the index reader %s" % R.name,
-           how="returns the number of symbols it took (component %s of its result)" % summ["count_index"] if summ["count_index"] is not None
-           else "always takes exactly the requested number",
+           how=("returns the number of symbols it took (component %s of its result)" % summ["count_index"] if summ["count_index"] is not None
+                else "always takes exactly the requested number") + ", for " + decided_for,
            witness=None if ok else "the index reader swallows the end of the input: it can take fewer symbols than requested "
                                    "without telling its caller, which then over-counts the symbols of the fragment "
                                    "(wrong input positions in every later fragment, e.g. '[C][Branch1].[C]')",
